@@ -12,7 +12,10 @@ Three kinds of decision procedure, none of them tied to a statement shape:
 * bounded interpretation (`TruthTable`): `merge` and the merged-index builder are *interpreted* (an abstract
   interpreter over the AST - nothing of the repository is imported or run) on model inputs, exhaustively within small
   bounds: every sequence of up to 3 inputs that are identified / unidentified, every sequence of up to 3 inputs with
-  field-set names {base} / {base, x} / {base, y}, every tuple of up to 3 parts with 1..3 trajectories.  Only what
+  field-set names {base} / {base, x} / {base, y}, every tuple of up to 3 parts with 1..3 trajectories (the last once
+  with small flight identifiers and once with identifiers that only a 64-bit integer holds exactly; numpy arrays carry
+  their element type and hold their values as that type holds them: creation with / without dtype, promotion, astype,
+  division, the type of the netCDF variable written to).  Only what
   the code computes from constants and from what the tables vary has a value; paths, files and library calls are
   opaque; a branch on an opaque test forks, and a raise that hangs on such a branch is somebody else's refusal; a
   branch on something read from an input store that the model does not know is UNDECIDED.  Helpers (private functions
@@ -41,8 +44,8 @@ R4  the metadata records, per input, (the base name under which the input is mov
 R5  merged index (C08-R3).  (a) The stores the builder opens and walks are an order-preserving image of one of its
     parameters, and the argument merge passes for it is an image of the checked input list; the store opened at step k
     is made from input k.  (b) By bounded interpretation of the builder on model parts: what it stores into the two
-    index variables maps every flight identifier (ascending) to the position of its trajectory in the concatenation of
-    the parts in the order given.  (When (b) cannot be decided the shape rule `c08.rule_offsets` is used.)
+    index variables maps every flight identifier (ascending, and unchanged: no passage through a float or a narrower
+    integer) to the position of its trajectory in the concatenation of the parts in the order given.  (When (b) cannot be decided the shape rule `c08.rule_offsets` is used.)
 R6  the merged index is built for every uniformly identified sequence of 1..3 inputs and for no unidentified one (the
     reader of a merged store consults nothing else) - by the same interpretation of `merge` as R2.
 """
@@ -1109,11 +1112,12 @@ class _CannotEnter(Exception):
 class AV:
     """abstract value: k = 'c' constant | 'l' list | 't' tuple | 's' set | 'd' dict | 'a' one-dimensional array |
     'r' record (NamedTuple / dataclass instance: field name -> value, in declaration order) | 'o' opaque object (not None) | 'f' function | 'u' unknown;  dep = computed from what was read from an input store;
-    elem = the input it was made from"""
-    __slots__ = ('k', 'v', 'dep', 'elem')
+    elem = the input it was made from;  dt = element type of an array ('i8', 'f8', 'i4', ...: numpy's kind + bytes;
+    'O' python objects; None not known) - the values of an array are always held *as that type holds them*"""
+    __slots__ = ('k', 'v', 'dep', 'elem', 'dt')
 
-    def __init__(self, k, v=None, dep=False, elem=None):
-        self.k, self.v, self.dep, self.elem = k, v, dep, elem
+    def __init__(self, k, v=None, dep=False, elem=None, dt=None):
+        self.k, self.v, self.dep, self.elem, self.dt = k, v, dep, elem, dt
 
     def __repr__(self):
         return f'<{self.k} {self.v!r}{" dep" if self.dep else ""}{"" if self.elem is None else " #%d" % self.elem}>'
@@ -1211,6 +1215,132 @@ def _concrete(v: AV):
     return _NO
 
 
+# ---- element types of arrays ---------------------------------------------------------------------------------------
+#
+# An array holds its values as its element type holds them: an identifier above 2**53 that passes through a float64
+# array comes out as another number, one above 2**31 that passes through an int32 array wraps around.  The interpreter
+# therefore keeps the element type of every array it models (numpy's kind letter + size in bytes) and converts the
+# values whenever numpy would: creation with / without `dtype`, concatenation and arithmetic (promotion), `astype`,
+# a store into a typed netCDF variable.  On model identifiers that only the 64-bit integer type holds exactly, "what is
+# stored is what was read" then fails for every writer that sends the identifiers through a narrower representation.
+
+_DT_NAMES = {
+    'int': 'i8', 'int64': 'i8', 'int_': 'i8', 'intp': 'i8', 'longlong': 'i8', 'i8': 'i8', 'q': 'i8', 'l': 'i8', 'long': 'i8',
+    'int32': 'i4', 'intc': 'i4', 'i4': 'i4', 'i': 'i4', 'int16': 'i2', 'i2': 'i2', 'h': 'i2', 'short': 'i2',
+    'int8': 'i1', 'i1': 'i1', 'byte': 'i1',
+    'uint64': 'u8', 'uint': 'u8', 'uintp': 'u8', 'ulonglong': 'u8', 'u8': 'u8', 'Q': 'u8', 'L': 'u8',
+    'uint32': 'u4', 'uintc': 'u4', 'u4': 'u4', 'I': 'u4', 'uint16': 'u2', 'u2': 'u2', 'H': 'u2', 'ushort': 'u2',
+    'uint8': 'u1', 'u1': 'u1', 'ubyte': 'u1', 'B': 'u1',
+    'float': 'f8', 'float64': 'f8', 'double': 'f8', 'float_': 'f8', 'f8': 'f8', 'd': 'f8',
+    'float32': 'f4', 'single': 'f4', 'f4': 'f4', 'f': 'f4', 'float16': 'f2', 'half': 'f2', 'f2': 'f2', 'e': 'f2',
+    'bool': 'b1', 'bool_': 'b1', 'b1': 'b1', '?': 'b1', 'object': 'O', 'object_': 'O', 'O': 'O',
+}
+_DT_TEXT = {'i': 'int', 'u': 'uint', 'f': 'float', 'b': 'bool'}
+ID_DT = 'i8'            # the element type of flight identifiers (`field_type=np.int64`; SQLite row ids are 64-bit)
+
+
+def dt_text(code) -> str:
+    if code is None:
+        return 'unknown type'
+    if code == 'O':
+        return 'object'
+    return 'bool' if code == 'b1' else f'{_DT_TEXT[code[0]]}{8 * int(code[1:])}'
+
+
+def dt_code(v: 'AV'):
+    """element type named by the value of a `dtype` argument: `np.int64`, `int`, `'i8'`, `'<f8'`, `x.dtype`; None when
+    it is not one the interpreter knows"""
+    if v.k == 'c' and isinstance(v.v, str):
+        return _DT_NAMES.get(v.v.lstrip('<>=|'))
+    if v.k == 'o' and isinstance(v.v, tuple) and v.v and v.v[0] == 'dtype':
+        return v.v[1]
+    if v.k == 'o' and isinstance(v.v, str):
+        name = v.v.lstrip('.')
+        if name.endswith('()'):
+            return None
+        return _DT_NAMES.get(name) if len(name) > 1 else None
+    return None
+
+
+def dt_promote(a, b):
+    """numpy's result type of two element types (None: not known)"""
+    if a is None or b is None:
+        return a if b is None else b
+    if a == b:
+        return a
+    if 'O' in (a, b):
+        return 'O'
+    if a == 'b1':
+        return b
+    if b == 'b1':
+        return a
+    ka, na, kb, nb = a[0], int(a[1:]), b[0], int(b[1:])
+    if ka == kb:
+        return ka + str(max(na, nb))
+    if 'f' in (ka, kb):
+        nf, ni = (na, nb) if ka == 'f' else (nb, na)
+        return 'f' + str(max(nf, 2 if ni == 1 else (4 if ni == 2 else 8)))
+    ni, nu = (na, nb) if ka == 'i' else (nb, na)
+    if nu < ni:
+        return 'i' + str(ni)
+    return 'f8' if nu >= 8 else 'i' + str(2 * nu)
+
+
+def dt_cast(x, code):
+    """the Python value x as an element of type `code` holds it"""
+    import math
+    import struct
+    if code is None or code == 'O' or x is None or isinstance(x, str):
+        return x
+    k, n = code[0], int(code[1:])
+    if k == 'b':
+        return bool(x)
+    if k == 'f':
+        x = float(x)
+        if n >= 8 or x != x or x in (math.inf, -math.inf):
+            return x
+        fmt = 'f' if n == 4 else 'e'
+        try:
+            return struct.unpack(fmt, struct.pack(fmt, x))[0]
+        except OverflowError:
+            return math.copysign(math.inf, x)
+    if isinstance(x, float):
+        if x != x or x in (math.inf, -math.inf):
+            raise TTUndecided('a non-finite value is converted to an integer type')
+        x = math.trunc(x)
+    x, bits = int(x), 8 * n
+    if k == 'u':
+        return x % (1 << bits)
+    return (x + (1 << (bits - 1))) % (1 << bits) - (1 << (bits - 1))
+
+
+def dt_of_values(items) -> str | None:
+    """the element type numpy gives an array made from these Python values (no `dtype` given)"""
+    vals = [x.v for x in items]
+    if not vals:
+        return 'f8'                               # np.array([]), np.asarray([]): float64
+    if any(isinstance(x, float) for x in vals):
+        return 'f8'
+    if all(isinstance(x, bool) for x in vals):
+        return 'b1'
+    if all(isinstance(x, int) for x in vals):
+        return 'i8'
+    return None
+
+
+def dt_of(v: 'AV'):
+    """element type of an array value / of the array numpy makes from a list"""
+    if v.k == 'a' and v.dt is not None:
+        return v.dt
+    if v.k in ('a', 'l', 't'):
+        q = list(v.v)
+        if all(x.k == 'c' for x in q):
+            if v.k == 'a' and not q:
+                return None
+            return dt_of_values(q)
+    return None
+
+
 class _St:
     """one path: environment, values of the repository calls already made for the current statement, the number of
     enclosing branches that were taken on an opaque test, whether identifier information decided anything"""
@@ -1268,6 +1398,26 @@ class TruthTable:
                 return AV('f', i)
         self.funcs.append((node, fi))
         return AV('f', len(self.funcs) - 1)
+
+    def cast_items(self, items, dt, st: _St, node, why: str = ''):
+        """the elements as an array of element type dt holds them; a conversion that changes a value is put on the
+        record of the path (`flags['repr']`), with the place where it happens"""
+        if dt is None or dt == 'O':
+            return list(items)
+        out, changed = [], None
+        for x in items:
+            if x.k != 'c' or isinstance(x.v, str) or x.v is None:
+                out.append(x)
+                continue
+            y = dt_cast(x.v, dt)
+            if changed is None and (y != x.v):
+                changed = (x.v, y)
+            out.append(x if (y == x.v and type(y) is type(x.v)) else AV('c', y, x.dep))
+        if changed is not None and st is not None:
+            text = norm(node)[:70] if isinstance(node, ast.AST) else str(node)
+            st.flags.setdefault('repr', []).append((getattr(node, 'lineno', 0), f'`{text}` holds its values as {dt_text(dt)}{why} '
+                                                    f'({changed[0]} becomes {changed[1]!r})'))
+        return out
 
     # ---- expressions --------------------------------------------------------------------------------------
     def ev(self, e, st: _St) -> AV:
@@ -1359,8 +1509,8 @@ class TruthTable:
             return AV('u', None, True)
         if b.k == 'o' and b.v == 'index group' and attr == 'variables' and self.index_tables is not None and b.elem is not None:
             ids, idx = self.index_tables[b.elem]
-            return AV('d', {'flight_id': AV('a', [AV('c', x, True) for x in ids], True),
-                            'trajectory_index': AV('a', [AV('c', x, True) for x in idx], True)}, True)
+            return AV('d', {'flight_id': AV('a', [AV('c', x, True) for x in ids], True, None, ID_DT),
+                            'trajectory_index': AV('a', [AV('c', x, True) for x in idx], True, None, ID_DT)}, True)
         if b.k == 'a':
             if attr == 'size':
                 return AV('c', len(b.v), b.dep)
@@ -1368,6 +1518,8 @@ class TruthTable:
                 return AV('t', (AV('c', len(b.v), b.dep),))
             if attr in ('data', 'T'):
                 return b
+            if attr == 'dtype' and dt_of(b) is not None:
+                return AV('o', ('dtype', dt_of(b)), b.dep)
         if b.k == 'o':
             return AV('o', f'.{attr}', b.dep, b.elem)
         return self.unknown([b])
@@ -1375,18 +1527,18 @@ class TruthTable:
     def ev_Subscript(self, e, st):
         b = self.ev(e.value, st)
         if isinstance(e.slice, ast.Constant) and e.slice.value is Ellipsis and b.k in ('a', 'l'):
-            return AV(b.k, list(b.v), b.dep)
+            return AV(b.k, list(b.v), b.dep, None, b.dt)
         if isinstance(e.slice, ast.Slice):
             parts = [self.ev(x, st) if x is not None else AV('c', None) for x in (e.slice.lower, e.slice.upper, e.slice.step)]
             s = _seq(b) if b.k in ('l', 't', 'a') else None
             if s is not None and all(p.k == 'c' and (p.v is None or isinstance(p.v, int)) for p in parts):
                 r = s[slice(*(p.v for p in parts))]
-                return AV(b.k, tuple(r) if b.k == 't' else r, b.dep or any(p.dep for p in parts))
+                return AV(b.k, tuple(r) if b.k == 't' else r, b.dep or any(p.dep for p in parts), None, b.dt)
             return self.made_from([b] + parts, 'slice') if b.k == 'o' else self.unknown([b] + parts)
         i = self.ev(e.slice, st)
         if b.k == 'a' and i.k in ('a', 'l'):
             if all(x.k == 'c' and isinstance(x.v, int) and not isinstance(x.v, bool) and -len(b.v) <= x.v < len(b.v) for x in i.v):
-                return AV('a', [b.v[x.v] for x in i.v], b.dep or _deep(i))
+                return AV('a', [b.v[x.v] for x in i.v], b.dep or _deep(i), None, b.dt)
             return self.unknown([b, i])
         if b.k == 'o' and isinstance(b.v, tuple) and b.v[0] == 'anykey':
             return b.v[1]                                      # a model mapping with the same value under every key
@@ -1397,7 +1549,7 @@ class TruthTable:
         if b.k in ('l', 't', 'a') and i.k == 'c' and isinstance(i.v, int) and not isinstance(i.v, bool):
             if -len(b.v) <= i.v < len(b.v):
                 r = b.v[i.v]
-                return r if not (b.dep or i.dep) else AV(r.k, r.v, True, r.elem)
+                return r if not (b.dep or i.dep) else AV(r.k, r.v, True, r.elem, r.dt)
             raise _Raised(False, e)      # IndexError: nobody's refusal
         if b.k == 'd' and i.k == 'c':
             if i.v in b.v:
@@ -1433,16 +1585,16 @@ class TruthTable:
                     return AV('c', is_or, any(_deep(s) for s in seen + rest))
                 return self.unknown(seen + rest)
             if t is is_or:
-                return v if len(seen) == 1 or not any(_deep(s) for s in seen) else AV(v.k, v.v, True, v.elem)
+                return v if len(seen) == 1 or not any(_deep(s) for s in seen) else AV(v.k, v.v, True, v.elem, v.dt)
         v = seen[-1]
-        return v if not any(_deep(s) for s in seen[:-1]) else AV(v.k, v.v, True, v.elem)
+        return v if not any(_deep(s) for s in seen[:-1]) else AV(v.k, v.v, True, v.elem, v.dt)
 
     def ev_IfExp(self, e, st):
         c = self.ev(e.test, st)
         t = _truth(c)
         if t is not None:
             v = self.ev(e.body if t else e.orelse, st)
-            return v if not _deep(c) else AV(v.k, v.v, True, v.elem)
+            return v if not _deep(c) else AV(v.k, v.v, True, v.elem, v.dt)
         a, b = self.ev(e.body, st.fork()), self.ev(e.orelse, st.fork())
         if _eq(a, b) is True and a.k == 'c':
             return a
@@ -1460,14 +1612,33 @@ class TruthTable:
                 if f is not None:
                     return AV('c', f(a.v, b.v), dep)
             if a.k == 'a' or b.k == 'a':
-                f = {ast.Add: lambda x, y: x + y, ast.Sub: lambda x, y: x - y, ast.Mult: lambda x, y: x * y}.get(type(e.op))
+                f = {ast.Add: lambda x, y: x + y, ast.Sub: lambda x, y: x - y, ast.Mult: lambda x, y: x * y,
+                     ast.Div: lambda x, y: float(x) / float(y), ast.FloorDiv: lambda x, y: x // y,
+                     ast.Mod: lambda x, y: x % y}.get(type(e.op))
                 xs = a.v if a.k == 'a' else ([a] * len(b.v) if a.k == 'c' else None)
                 ys = b.v if b.k == 'a' else ([b] * len(a.v) if b.k == 'c' else (b.v if b.k == 'l' else None))
                 if a.k == 'l':
                     xs = a.v
                 if f is not None and xs is not None and ys is not None and len(xs) == len(ys) \
                         and all(x.k == 'c' and isinstance(x.v, (int, float)) for x in list(xs) + list(ys)):
-                    return AV('a', [AV('c', f(x.v, y.v), x.dep or y.dep) for x, y in zip(xs, ys)], dep)
+                    # element type of the result: numpy's promotion; a Python scalar only decides between the kinds
+                    dt = None
+                    for side in (a, b):
+                        if side.k == 'c':
+                            continue
+                        d = dt_of(side)
+                        if d is None:
+                            dt = None
+                            break
+                        dt = d if dt is None else dt_promote(dt, d)
+                    if dt is not None:
+                        if any(side.k == 'c' and isinstance(side.v, float) for side in (a, b)) and dt[0] != 'f':
+                            dt = 'f8'
+                        if isinstance(e.op, ast.Div) and dt[0] != 'f':
+                            dt = 'f8'
+                    xs, ys = self.cast_items(xs, dt, st, e), self.cast_items(ys, dt, st, e)     # as numpy converts the operands
+                    vals = [AV('c', dt_cast(f(x.v, y.v), dt), x.dep or y.dep) for x, y in zip(xs, ys)]
+                    return AV('a', vals, dep, None, dt)
                 return self.unknown([a, b])
             if a.k == b.k == 'l' and isinstance(e.op, ast.Add):
                 return AV('l', a.v + b.v, a.dep or b.dep)
@@ -1640,7 +1811,7 @@ class TruthTable:
             return AV('u', None, True)
         # a method of a concrete container
         if recv is not None and recv.k in ('l', 't', 's', 'd', 'a'):
-            r = self.method(recv, e.func.attr, args, kw, st)
+            r = self.method(recv, e.func.attr, args, kw, st, e)
             if r is not None:
                 return r
             return self.unknown([recv] + args + list(kw.values()))
@@ -1717,31 +1888,71 @@ class TruthTable:
             return q if q is not None and all(x.k == 'c' for x in q) else None
         try:
             if root in ('np', 'numpy', 'np.ma', 'numpy.ma'):
-                if last in ('asarray', 'array', 'ascontiguousarray', 'getdata', 'filled', 'copy', 'sort', 'int64', 'int32') and args:
-                    if args[0].k == 'c' and last in ('int64', 'int32'):
-                        return args[0]
+                def given(pos):
+                    """(present, element type | None) of the dtype argument: keyword `dtype`, or positional at pos"""
+                    d = kw.get('dtype', args[pos] if pos is not None and len(args) > pos else None)
+                    if d is None or (d.k == 'c' and d.v is None):
+                        return False, None
+                    return True, dt_code(d)
+
+                def made(items, dt, why=''):
+                    return AV('a', self.cast_items(items, dt, st, e, why), dep, None, dt)
+                if last == 'dtype' and len(args) == 1 and not kw:
+                    code = dt_code(args[0])
+                    return AV('o', ('dtype', code), args[0].dep) if code is not None else None
+                if last in _DT_NAMES and len(last) > 2 and len(args) == 1 and not kw:
+                    # a scalar type called on a value / on an array: a conversion
+                    if args[0].k == 'c' and isinstance(args[0].v, (bool, int, float)):
+                        return AV('c', self.cast_items([args[0]], _DT_NAMES[last], st, e)[0].v, args[0].dep)
+                    q = arr(args[0])
+                    return made(q, _DT_NAMES[last]) if q is not None else None
+                if last in ('asarray', 'array', 'ascontiguousarray', 'asanyarray', 'getdata', 'filled', 'copy', 'sort') and args:
                     q = arr(args[0])
                     if q is None:
                         return None
+                    present, dt = given(1 if last in ('asarray', 'array', 'ascontiguousarray', 'asanyarray') else None)
+                    if present and dt is None:
+                        return None
+                    if not present:
+                        dt = dt_of(args[0])
                     if last == 'sort':
                         q = sorted(q, key=lambda x: x.v)
-                    return AV('a', list(q), args[0].dep)
+                    return AV('a', self.cast_items(q, dt, st, e), args[0].dep, None, dt)
                 if last in ('concatenate', 'hstack') and args:
                     parts = _seq(args[0])
                     qs = [arr(x) for x in parts] if parts is not None else None
-                    if qs is None or any(q is None for q in qs):
+                    if qs is None or any(q is None for q in qs) or not qs:
                         return None
-                    return AV('a', [x for q in qs for x in q], dep)
+                    present, dt = given(None)
+                    if present and dt is None:
+                        return None
+                    if not present:
+                        dts = [dt_of(x) for x in parts]
+                        if any(d is None for d in dts):
+                            dt = None
+                        else:
+                            for d in dts:
+                                dt = d if dt is None else dt_promote(dt, d)
+                    why = '' if present or dt is None else \
+                        f': the result type of its parts ({", ".join(dt_text(dt_of(x)) for x in parts)})'
+                    return made([x for q in qs for x in q], dt, why)
                 if last == 'append' and len(args) == 2:
                     a_, b_ = arr(args[0]), (arr(args[1]) if args[1].k != 'c' else [args[1]])
-                    return AV('a', a_ + b_, dep) if a_ is not None and b_ is not None else None
+                    if a_ is None or b_ is None:
+                        return None
+                    d1, d2 = dt_of(args[0]), (dt_of(args[1]) if args[1].k != 'c' else dt_of_values([args[1]]))
+                    dt = dt_promote(d1, d2) if d1 is not None and d2 is not None else None
+                    return made(a_ + b_, dt, f': the result type of {dt_text(d1)} and {dt_text(d2)}' if dt else '')
                 if last == 'argsort' and args:
                     q = arr(args[0])
                     if q is None:
                         return None
-                    return AV('a', [AV('c', i, dep) for i in sorted(range(len(q)), key=lambda i: q[i].v)], dep)
+                    return AV('a', [AV('c', i, dep) for i in sorted(range(len(q)), key=lambda i: q[i].v)], dep, None, 'i8')
                 if last == 'arange' and args and all(a.k == 'c' and isinstance(a.v, int) for a in args):
-                    return AV('a', [AV('c', i, dep) for i in range(*(a.v for a in args))], dep)
+                    present, dt = given(None)
+                    if present and dt is None:
+                        return None
+                    return made([AV('c', i, dep) for i in range(*(a.v for a in args))], dt if present else 'i8')
                 if last == 'cumsum' and args:
                     q = arr(args[0])
                     if q is None:
@@ -1750,14 +1961,30 @@ class TruthTable:
                     for x in q:
                         t += x.v
                         out.append(AV('c', t, dep))
-                    return AV('a', out, dep)
-                if last in ('zeros', 'empty') and args and args[0].k == 'c' and isinstance(args[0].v, int):
-                    return AV('a', [AV('c', 0, dep) for _ in range(args[0].v)], dep)
+                    return AV('a', out, dep, None, dt_of(args[0]))
+                if last in ('zeros', 'empty', 'ones') and args and args[0].k == 'c' and isinstance(args[0].v, int):
+                    present, dt = given(1)
+                    if present and dt is None:
+                        return None
+                    return AV('a', [AV('c', dt_cast(int(last == 'ones'), dt if present else 'f8'), dep) for _ in range(args[0].v)], dep, None,
+                              dt if present else 'f8')                        # without dtype these are float64 arrays
+                if last in ('zeros_like', 'empty_like', 'ones_like') and args and args[0].k == 'a':
+                    present, dt = given(1)
+                    if present and dt is None:
+                        return None
+                    dt = dt if present else dt_of(args[0])
+                    return AV('a', [AV('c', dt_cast(int(last == 'ones_like'), dt), dep) for _ in args[0].v], dep, None, dt)
                 if last == 'full' and len(args) >= 2 and args[0].k == 'c' and isinstance(args[0].v, int) and args[1].k == 'c':
-                    return AV('a', [AV('c', args[1].v, dep) for _ in range(args[0].v)], dep)
+                    present, dt = given(2)
+                    if present and dt is None:
+                        return None
+                    return made([AV('c', args[1].v, dep) for _ in range(args[0].v)], dt if present else dt_of_values([args[1]]))
                 if last == 'fromiter' and args:
                     q = arr(args[0])
-                    return AV('a', list(q), dep) if q is not None else None
+                    present, dt = given(1)
+                    if q is None or not present or dt is None:
+                        return None
+                    return made(list(q), dt)
                 return None
             if cn in ('itertools.accumulate', 'accumulate') and args and len(args) == 1 and 'func' not in kw:
                 q = arr(args[0])
@@ -1785,7 +2012,9 @@ class TruthTable:
                 return args[0]              # ExitStack.enter_context(cm) gives what `with cm as x` gives
             if isinstance(e.func, ast.Attribute) and last == 'createVariable' and recv is not None and recv.k == 'o' \
                     and args and args[0].k == 'c' and isinstance(args[0].v, str):
-                return AV('o', ('var', args[0].v), recv.dep, recv.elem)
+                dt = dt_code(kw.get('datatype', args[1] if len(args) > 1 else AV('u')))
+                st.flags.setdefault('vardt', {})[args[0].v] = dt
+                return AV('o', ('var', args[0].v), recv.dep, recv.elem, dt)
         except (_Raised, TTUndecided):
             raise
         except Exception:
@@ -1911,15 +2140,22 @@ class TruthTable:
             self.fi = old_fi
         return outs
 
-    def method(self, r: AV, name: str, args, kw, st):
+    def method(self, r: AV, name: str, args, kw, st, call=None):
         try:
             if r.k == 'a':
                 if name in ('tolist',) and not args:
                     return AV('l', list(r.v), r.dep)
-                if name in ('copy', 'astype', 'filled', 'compressed', 'flatten', 'ravel', 'view'):
-                    return AV('a', list(r.v), r.dep)
+                if name == 'astype' and (args or 'dtype' in kw):
+                    dt = dt_code(kw.get('dtype', args[0] if args else None))
+                    if dt is None or not all(x.k == 'c' for x in r.v):
+                        return None
+                    return AV('a', self.cast_items(r.v, dt, st, call if call is not None else '.astype()'), r.dep, None, dt)
+                if name in ('copy', 'filled', 'compressed', 'flatten', 'ravel'):
+                    return AV('a', list(r.v), r.dep, None, r.dt)
+                if name == 'view' and not args and not kw:
+                    return AV('a', list(r.v), r.dep, None, r.dt)
                 if name == 'argsort' and not args and all(x.k == 'c' for x in r.v):
-                    return AV('a', [AV('c', i, r.dep) for i in sorted(range(len(r.v)), key=lambda i: r.v[i].v)], r.dep)
+                    return AV('a', [AV('c', i, r.dep) for i in sorted(range(len(r.v)), key=lambda i: r.v[i].v)], r.dep, None, 'i8')
                 return None
             if r.k == 'l' and name == 'sort' and not args and set(kw) <= {'key', 'reverse'}:
                 q = self._sorted(r.v, kw, st, None)
@@ -2073,8 +2309,14 @@ class TruthTable:
             if name == 'bool' and len(A) == 1:
                 t = _truth(A[0])
                 return AV('c', t, dep) if t is not None else AV('u', None, dep)
-            if name == 'int' and len(A) == 1 and A[0].k == 'c' and isinstance(A[0].v, (bool, int)):
+            if name == 'int' and len(A) == 1 and A[0].k == 'c' and isinstance(A[0].v, (bool, int, float)) and not kw:
                 return AV('c', int(A[0].v), dep)
+            if name == 'float' and len(A) == 1 and A[0].k == 'c' and isinstance(A[0].v, (bool, int, float)) and not kw:
+                y = float(A[0].v)
+                if y != A[0].v:
+                    st.flags.setdefault('repr', []).append((getattr(call, 'lineno', 0), f'`{norm(call)[:70]}` holds its value as a float '
+                                                            f'({A[0].v} becomes {y!r})'))
+                return AV('c', y, dep)
             if name == 'sum' and 1 <= len(A) <= 2:
                 s = _seq(A[0])
                 start = A[1] if len(A) == 2 else kw.get('start', AV('c', 0))
@@ -2158,7 +2400,7 @@ class TruthTable:
             plain = not any(isinstance(x, ast.Starred) for x in t.elts)
             if s is not None and plain and len(s) == len(t.elts):
                 for x, y in zip(t.elts, s):
-                    self.bind(x, y if not v.dep else AV(y.k, y.v, True, y.elem), st)
+                    self.bind(x, y if not v.dep else AV(y.k, y.v, True, y.elem, y.dt), st)
             else:
                 for x in t.elts:
                     x = x.value if isinstance(x, ast.Starred) else x
@@ -2169,6 +2411,13 @@ class TruthTable:
                 sl = t.slice
                 whole = (isinstance(sl, ast.Slice) and sl.lower is None and sl.upper is None and sl.step is None) \
                     or (isinstance(sl, ast.Constant) and sl.value is Ellipsis)
+                dt = b.dt if b.dt is not None else st.flags.get('vardt', {}).get(b.v[1])
+                if whole and dt is not None and v.k in ('l', 't', 'a') and all(x.k == 'c' for x in v.v):
+                    # the variable holds what is assigned to it as its own element type
+                    v = AV(v.k, self.cast_items(list(v.v), dt, st, t, f' (the type of the variable {b.v[1]!r})'), v.dep, None,
+                           dt if v.k == 'a' else None)
+                    if v.k == 't':
+                        v.v = tuple(v.v)
                 st.flags.setdefault('writes', []).append((b.v[1], v if whole else AV('u', None, True)))
                 return
             i = self.ev(t.slice, st) if not isinstance(t.slice, ast.Slice) else AV('u')
@@ -2348,7 +2597,7 @@ class TruthTable:
                     f = {ast.BitOr: set.__or__, ast.BitAnd: set.__and__, ast.Sub: set.__sub__, ast.BitXor: set.__xor__}[type(s.op)]
                     st.env[s.target.id] = AV('s', f(cur.v, v.v), cur.dep or v.dep)
                     return [(st, None)]
-                st.env[s.target.id] = self._binop_values(s.op, cur, v)
+                st.env[s.target.id] = self._binop_values(s.op, cur, v, st, s)
             else:
                 self.bind(s.target, self.unknown([v]), st)
             return [(st, None)]
@@ -2376,7 +2625,7 @@ class TruthTable:
             for x in q:
                 nxt = []
                 for s1 in live:
-                    self.bind(s.target, x if not it.dep else AV(x.k, x.v, True, x.elem), s1)
+                    self.bind(s.target, x if not it.dep else AV(x.k, x.v, True, x.elem, x.dt), s1)
                     for s2, c in self.block(s.body, [s1]):
                         if c is None or c[0] == 'continue':
                             nxt.append(s2)
@@ -2510,9 +2759,11 @@ class TruthTable:
             return out + [(st, None)]
         return [(st, None)]       # pass, import, global, nonlocal
 
-    def _binop_values(self, op, a: AV, b: AV) -> AV:
+    def _binop_values(self, op, a: AV, b: AV, st: _St | None = None, at=None) -> AV:
         n = ast.BinOp(left=ast.Name(id='__a__', ctx=ast.Load()), op=op, right=ast.Name(id='__b__', ctx=ast.Load()))
-        return self.ev_BinOp(n, _St({'__a__': a, '__b__': b}))
+        if at is not None:
+            ast.copy_location(n, at)
+        return self.ev_BinOp(n, _St({'__a__': a, '__b__': b}, flags=st.flags if st is not None else None))
 
     def _skip_loop(self, s, st: _St, it: AV):
         """a loop whose iterations cannot be enumerated: everything it assigns is unknown afterwards"""
@@ -2712,10 +2963,16 @@ def refusal_tables(prog, m, max_n: int = 3) -> dict:
 # ascending order, and next to each identifier the position of its trajectory in the merged store, i.e. in the
 # concatenation of the parts in the order in which they were given.
 
-def _model_parts(sizes):
-    """-> (per part: (ids ascending, local positions), {identifier: position in the concatenation})"""
+WIDE = 2 ** 53
+
+
+def _model_parts(sizes, wide: bool = False):
+    """-> (per part: (ids ascending, local positions), {identifier: position in the concatenation});
+    wide: identifiers that only a 64-bit integer holds exactly (odd numbers above 2**53: no float64, no int32)"""
     total = sum(sizes)
     ids = [(g * 5 + 3) % 11 for g in range(total)]            # distinct for total <= 11, not monotone in g
+    if wide:
+        ids = [WIDE + 2 * x + 1 for x in ids]
     tables, where, g = [], {}, 0
     for n in sizes:
         part = [(ids[g + i], i) for i in range(n)]
@@ -2753,29 +3010,35 @@ def _merged_index_table(ctx, prog, m, max_parts, max_size):
     if len(srcs) != 1:
         return None, 'the list of inputs of the index builder is not one of its parameters', line0
     n_runs = 0
-    for n in range(1, max_parts + 1):
-        for sizes in itertools.product(range(1, max_size + 1), repeat=n):
-            tables, where = _model_parts(sizes)
-            tt = TruthTable(prog, builder, (True,) * n, '<none>', None)
-            tt.sizes, tt.index_tables = list(sizes), tables
-            try:
-                res = tt.run(srcs[0], keep_flags=True)
-            except TTUndecided as ex:
-                return None, f'parts of sizes {sizes}: {ex}', line0
-            except (_Raised, RecursionError):
-                return None, f'parts of sizes {sizes}: an exception escaped the interpretation', line0
-            done = [r for r in res if r[0] == 'accepted']
-            if not done or len(done) != len(res):
-                return None, f'parts of sizes {sizes}: the builder does not complete on every path', line0
-            n_runs += 1
-            for r in done:
-                v, text = _check_index_writes(r[5], where, f'for parts of sizes {sizes} (in the order given)')
-                if v is False and 'records position' in text:
-                    text += ': the offset of a part is not the number of trajectories in the parts before it'
-                if v is not True:
-                    return v, text, line0
-    return True, (f'for every tuple of up to {max_parts} parts with 1..{max_size} trajectories each ({n_runs} tuples) the stored '
-                  f'index maps every identifier to the position of its trajectory in the concatenation of the parts'), line0
+    # first with small identifiers (order and offsets; readable counterexamples), then with identifiers that only the
+    # 64-bit integer type holds exactly (the values must reach the index unchanged: no float, no narrower integer)
+    for wide in (False, True):
+        for n in range(1, max_parts + 1):
+            for sizes in itertools.product(range(1, max_size + 1), repeat=n):
+                if wide and n == max_parts and len(set(sizes)) > 1 and sorted(sizes) != list(range(1, n + 1)):
+                    continue
+                tables, where = _model_parts(sizes, wide)
+                tt = TruthTable(prog, builder, (True,) * n, '<none>', None)
+                tt.sizes, tt.index_tables = list(sizes), tables
+                try:
+                    res = tt.run(srcs[0], keep_flags=True)
+                except TTUndecided as ex:
+                    return None, f'parts of sizes {sizes}: {ex}', line0
+                except (_Raised, RecursionError):
+                    return None, f'parts of sizes {sizes}: an exception escaped the interpretation', line0
+                done = [r for r in res if r[0] == 'accepted']
+                if not done or len(done) != len(res):
+                    return None, f'parts of sizes {sizes}: the builder does not complete on every path', line0
+                n_runs += 1
+                for r in done:
+                    v, text = _check_index_writes(r[5], where, f'for parts of sizes {sizes} (in the order given)')
+                    if v is False and 'records position' in text:
+                        text += ': the offset of a part is not the number of trajectories in the parts before it'
+                    if v is not True:
+                        return v, text, _repr_line(r[5]) or line0
+    return True, (f'for every tuple of up to {max_parts} parts with 1..{max_size} trajectories each ({n_runs} runs, with small '
+                  f'identifiers and with identifiers above 2**53) the stored index maps every identifier, unchanged, to the position '
+                  f'of its trajectory in the concatenation of the parts'), line0
 
 
 def rule_merged_index(ctx, prog, m, rule):
@@ -2784,8 +3047,15 @@ def rule_merged_index(ctx, prog, m, rule):
     builder = m.func('TrajectoryStore._create_merged_store_index')
     verdict, text, line = merged_index_table(ctx, prog, m)
     if verdict is None:
-        from .c08 import rule_offsets
+        from .c08 import _index_writers, narrowing_steps, rule_offsets
         ctx.note(f'{rule}: bounded interpretation of the index builder not decided ({text}); shape rule used')
+        # whatever the form: a construct on the way of the stored identifiers that does not hold 64-bit integers
+        for st_, v_ in _index_writers(prog, builder).get('flight_id', []):
+            for x, why in narrowing_steps(v_)[:1]:
+                ctx.ob(rule, builder, f'identifiers stored unchanged: {norm(x)[:60]}', False,
+                       f'on their way into the merged index the identifiers pass through `{norm(x)[:60]}` ({why}), which does not hold '
+                       'every 64-bit identifier exactly: such an identifier cannot be looked up in the merged store',
+                       line=getattr(x, 'lineno', st_.lineno))
         rule_offsets(ctx, m, rule=rule)
         return
     ctx.ob(rule, builder, 'merged index maps each identifier to the position of its trajectory in the merged store', verdict,
@@ -2863,6 +3133,14 @@ def _check_index_writes(flags, where, what):
     if last['flight_id'].k not in ('l', 'a', 't') or last['trajectory_index'].k not in ('l', 'a', 't') or F is _NO or T is _NO:
         return None, f'{what}: what is stored into the index variables could not be evaluated'
     F, T = list(F), list(T)
+    lost = sorted(set(where) - {f for f in F if isinstance(f, (int, float))})
+    if lost and len(F) == len(T) == len(where) and (flags.get('repr') or any(isinstance(f, float) for f in F)):
+        got = sorted(set(F) - set(where))
+        notes = flags.get('repr') or []
+        how = '; '.join(f'line {ln}: {tx}' for ln, tx in notes[:2]) if notes else 'the values are stored as floats'
+        return False, (f'{what} the identifier {lost[0]} is not in the index, which holds {got[0]!r} in its place: the flight '
+                       f'identifiers do not reach the index variable unchanged - they pass through a representation that does not hold '
+                       f'every 64-bit identifier exactly ({how}); the look-up of such an identifier finds nothing, or another flight')
     if len(F) != len(T) or sorted(F) != sorted(where):
         return False, f'{what} the index holds the identifiers {F} next to the positions {T}: not one entry per trajectory'
     if F != sorted(F):
@@ -2873,6 +3151,11 @@ def _check_index_writes(flags, where, what):
         return False, (f'{what} the trajectory with identifier {f} is at position {w}, but the index records position {t} for it '
                        f'({len(bad)} of {len(F)} entries are wrong)')
     return True, ''
+
+
+def _repr_line(flags):
+    """line of the first conversion that changed a value on this path, if any"""
+    return next((ln for ln, _ in (flags or {}).get('repr', []) if ln), None)
 
 
 _REINDEX: dict = {}
@@ -2892,15 +3175,17 @@ def reindex_table(prog, m, max_parts: int = 3, max_size: int = 3):
         _REINDEX[id(prog)] = (prog, r)
         return r
     n_runs = 0
-    for n in range(1, max_parts + 1):
+    for wide, n in [(w, k) for w in (False, True) for k in range(1, max_parts + 1)]:
         for sizes in itertools.product(range(0, max_size + 1), repeat=n):
             if sum(sizes) > 9 or sum(sizes) == 0:
                 continue
-            _, where = _model_parts(sizes)
+            if wide and n == max_parts and len(set(sizes)) > 1 and sorted(sizes) != list(range(n)):
+                continue
+            _, where = _model_parts(sizes, wide)
             ids = sorted(where, key=lambda f: where[f])
             groups, g = [], 0
             for k, sz in enumerate(sizes):
-                arr = AV('a', [AV('c', x, True) for x in ids[g:g + sz]], True)
+                arr = AV('a', [AV('c', x, True) for x in ids[g:g + sz]], True, None, ID_DT)
                 groups.append(AV('o', ('model', {'variables': AV('d', {'flight_id': arr}, True)}, {'variables'})))
                 g += sz
             files = AV('o', ('model', {'groups': AV('o', ('anykey', AV('l', groups)))}, {'groups'}))
@@ -2923,6 +3208,7 @@ def reindex_table(prog, m, max_parts: int = 3, max_size: int = 3):
             for r in acc:
                 v, text = _check_index_writes(r[5], where, f'for a store whose files hold {sizes} trajectories')
                 if v is not True:
-                    return done((v, text, line0))
-    return done((True, f'for every store of up to {max_parts} files with 0..{max_size} trajectories each ({n_runs} stores) the stored '
-                       f'index maps every identifier, in ascending order, to the position of its trajectory', line0))
+                    return done((v, text, _repr_line(r[5]) or line0))
+    return done((True, f'for every store of up to {max_parts} files with 0..{max_size} trajectories each ({n_runs} runs, with small '
+                       f'identifiers and with identifiers above 2**53) the stored index maps every identifier, unchanged and in '
+                       f'ascending order, to the position of its trajectory', line0))
